@@ -82,6 +82,11 @@ type PropInfo struct {
 	// Target number of runs and wall budget per tier.
 	QuickRuns, ThoroughRuns     int
 	QuickBudget, ThoroughBudget time.Duration
+	// HangIsViolation: the property itself promises that calls come back ("no call blocks
+	// indefinitely", "always terminates", deadlock freedom): a scenario that never finishes
+	// (hang.go) is then a violation <ID>:hang; for every other property it is reported as
+	// trouble of the run (exit 2), never as a verdict.
+	HangIsViolation bool
 }
 
 var registry = map[string]Prop{}
@@ -168,6 +173,21 @@ func RunWorker(t *testing.T, a WorkerArgs) {
 	seen := map[uint64]bool{}
 	byTag := map[string]int{}
 	start := time.Now()
+	var curIdx int
+	var curSc any
+	startHangMonitor(func(stacks string) {
+		raw, _ := json.Marshal(curSc)
+		what := fmt.Sprintf("the scenario did not finish within %v of real time (it takes milliseconds): a task is stuck outside every yield point — blocked on a real lock that is never released, or looping; goroutines inside go-mail: %s", hangLimit(), stacks)
+		if p.Info().HangIsViolation {
+			res.Violations = append(res.Violations, Violation{Tag: a.Prop + ":hang", Detail: what, Index: curIdx, Scenario: raw, Count: 1})
+		} else {
+			res.Infra = append(res.Infra, fmt.Sprintf("run %d: %s; scenario=%s", curIdx, what, raw))
+		}
+		res.WallS = time.Since(start).Seconds()
+		out, _ := json.Marshal(res)
+		_ = os.WriteFile(a.Out, out, 0o644)
+		os.Exit(0)
+	})
 	for i := a.Shard; a.MaxRuns <= 0 || i < a.MaxRuns; i += a.Shards {
 		if a.Budget > 0 && time.Since(start) > a.Budget {
 			break
@@ -177,7 +197,10 @@ func RunWorker(t *testing.T, a WorkerArgs) {
 			res.Exhausted = true
 			break
 		}
+		curIdx, curSc = i, sc
+		hangBegin()
 		out := p.Exec(t, sc)
+		hangEnd()
 		res.Runs++
 		if out.Evals > 1 {
 			res.Runs += out.Evals - 1
@@ -272,7 +295,9 @@ func RunReplay(t *testing.T, path string) ReplayResult {
 	if err != nil {
 		return ReplayResult{Infra: err.Error()}
 	}
+	hangBegin()
 	out := p.Exec(t, sc)
+	hangEnd()
 	rr := ReplayResult{Digest: out.Digest, Infra: out.Infra, Findings: out.Findings}
 	for _, f := range out.Findings {
 		rr.Tags = append(rr.Tags, f.Tag)
@@ -311,7 +336,7 @@ func RunShrink(t *testing.T, in ReplayFile, maxExec int) ReplayFile {
 		return false, ""
 	}
 	execs := 0
-	out := p.Exec(t, cur)
+	out := execGuarded(p, t, cur)
 	ok, det := has(out)
 	if !ok {
 		in.Note = "did not reproduce before shrinking"
@@ -333,7 +358,7 @@ func RunShrink(t *testing.T, in ReplayFile, maxExec int) ReplayFile {
 			if err != nil {
 				continue
 			}
-			o := p.Exec(t, dec)
+			o := execGuarded(p, t, dec)
 			if ok, det := has(o); ok && o.Infra == "" {
 				cur = dec
 				in.Detail = det
@@ -347,4 +372,11 @@ func RunShrink(t *testing.T, in ReplayFile, maxExec int) ReplayFile {
 	in.Scenario = raw
 	in.Note = fmt.Sprintf("minimised with %d re-executions", execs)
 	return in
+}
+
+// execGuarded runs one scenario under the hang monitor.
+func execGuarded(p Prop, t *testing.T, sc any) Outcome {
+	hangBegin()
+	defer hangEnd()
+	return p.Exec(t, sc)
 }
